@@ -93,6 +93,8 @@ def universal_paths():
 
 
 def file_content(path):
+    if os.path.basename(path) == "big.py":
+        return harness.py_function("before_blob", 4) + "\nBLOB = \"\"\"\n" + ("0123456789abcdef" * 4 + "\n") * 19000 + "\"\"\"\n\n" + harness.py_function("after_blob", 5)
     lang = language_of(os.path.basename(path))
     if lang not in SEVEN:
         return f"plain text for {path}\n"
@@ -221,7 +223,8 @@ def run_scan(base: Path, spelling, patterns, source):
     if cfg:
         (proj / ".codelimit.yml").write_text("exclude:\n" + "".join(f'  - "{p}"\n' for p in cfg))
     if gi:
-        (proj / ".gitignore").write_text("\n".join(gi) + "\n")
+        # (the last line of a .gitignore need not end in a newline)
+        (proj / ".gitignore").write_text("\n".join(gi) + ("\n" if len("".join(gi)) % 2 else ""))
     link = base / "link-to-proj"
     if spelling.startswith("symlink") and not link.exists():
         os.symlink(str(proj), str(link))
@@ -294,7 +297,9 @@ def _block(block, agg):
         _, combos = block
         paths = universal_paths()
         # every other block of combinations scans a checkout that lies BELOW a hidden directory
-        with harness.temp_tree(under=".local/share" if sum(len(p) for c in combos for p in c[0]) % 2 else None) as base:
+        # blocks of combinations alternately scan a checkout that lies directly under the temp directory, BELOW a hidden directory,
+        # and below directories whose names the default exclusions list (build/, tests/): only components below the root count
+        with harness.temp_tree(under=[None, ".local/share", "build/tests/ws"][sum(len(p) for c in combos for p in c[0]) % 3]) as base:
             build(base / "proj", paths)
             for patterns, source, spelling in combos:
                 files, seen, exc = run_scan(base, spelling, patterns, source)
@@ -320,6 +325,10 @@ DEGENERATE = {
     "only-excluded": ["tests/a.py", "build/b.js", "src/node_modules/c.ts", "venv/src/d.java"],
     "only-unsupported": ["n.txt", "src/m.rb", "noext"],
     "single": ["a.py"],
+    # a backslash is an ordinary file-name character on POSIX: 'pkg\\util.py' in the root is not 'pkg/util.py'
+    "backslash": ["pkg\\util.py", "pkg/util.py", "a\\b.js", "src/c\\d.ts"],
+    # a source file larger than 1 MiB is still a source file
+    "big-file": ["big.py", "src/a.py"],
     "deep": ["src/pkg/src/pkg/src/a.py", "src/pkg/src/.hid/pkg/a.py", "src/pkg/tests/pkg/a.py"],
     "pruned": None,
 }
